@@ -27,6 +27,7 @@ FILES = {
     'd0.conf': 'include("d1.conf")\n', 'd1.conf': 'include("d2.conf")\n', 'd2.conf': 'include("d3.conf")\n', 'd3.conf': 'include("d4.conf")\n',
     'd4.conf': 'include("d5.conf")\n', 'd5.conf': 'include("d6.conf")\n', 'd6.conf': 'include("d7.conf")\n', 'd7.conf': 'include("d8.conf")\n',
     'd8.conf': 'include("d9.conf")\n', 'd9.conf': 'sec last { include("d10.conf") }\n', 'd10.conf': 'x = 1\n',
+    'top.conf': 'i = 4\ns = "from top"\ninclude("inc1.conf")\n', 'inc3top.conf': 'il = {3}\nsec f { x = 3 }\n',
 }
 
 BASES = [
@@ -42,7 +43,7 @@ BASES = [
 RULE = ('valid base texts (lists, function calls with 0-3 arguments, nested/titled/key=value/no-default sections, includes 1-3 deep, pointer options with release callback, '
         'annotations on/off, search path on/off) x every token position as an error point, twice (text cut there; token replaced by a wrong one), also inside the included files; '
         'callback failure at the k-th invocation for every k; all API histories to depth N over parse ok/bad, setters, setmulti on an annotated option, addtsec, rm*sec, setcomment, '
-        'print, with and without search path. Monitors per case after cfg_free of every context: AddressSanitizer (double free / use after free), allocmon live-block table empty, '
+        'print, cfg_parse(file) twice / another file / cfg_parse_fp on the same context, a string set to its own current value, with and without search path. Monitors per case after cfg_free of every context: AddressSanitizer (double free / use after free), allocmon live-block table empty, '
         'LeakSanitizer recoverable check, /proc/self/fd count and library FILE table balanced, every pointer token handed out released exactly once. '
         'non-trivial: the case aborts or calls a remove / bulk-set API; distinct = case hash')
 
@@ -180,6 +181,11 @@ HOPS = [
     ['print 0', 'setopt 0 %s %s' % (optloc('p'), hx('viaapi')), 'setmulti 0 %s 2 %s %s' % (hx('pl'), hx('m1'), hx('m2'))],
     ['setlist 0 %s str 0' % hx('sl'), 'setlist 0 %s int 2 8 9' % hx('il'), 'setmulti 0 %s 1 %s' % (hx('s'), hx('multi'))],
     ['free 0', 'init 0 @SID @FL', '@SP'],
+    # the file entry points, repeated on the same context by the histories (same name twice, another name, a stream after a file)
+    ['parse_file 0 %s' % hx('top.conf')],
+    ['parse_file 0 %s' % hx('inc3top.conf'), 'parse_fp 0 %s' % hx('i = 8\nsl += {"fp"}\n')],
+    # a string option set to its own current value (the argument aliases the stored string)
+    ['selfstr 0 %s 0 0' % hx('s'), 'selfstr 0 %s 1 1' % hx('sl'), 'selfstr 0 %s 0 1' % hx('sl')],
 ]
 
 
@@ -225,6 +231,7 @@ def judge(spec, events, death):
     rs = [x for x in events if x.get('ev') == 'r' and x.get('op') == 'parse_buf']
     aborted = any(x['rc'] != 0 for x in rs)
     v.nontrivial = aborted or (kind == 'history' and any(k >= 8 for k in spec['ops']))
+    rs = rs  # (file entry points log under their own op names; their failures are not 'aborted parses' here)
     v.notes.setdefault('kinds', set()).add(kind.split(':')[0])
     if aborted:
         v.notes['aborted_parses'] = 1
